@@ -461,3 +461,28 @@ def run(ck):
     ck.ob('C17.decode', 'C17.decode/expiry-accepts-every-emitted-value', refused is None, dec.loc(refused[0]) if refused else dec.loc(exp_sites[0]),
           'no expiry that encode_manifest can emit (|seconds| <= %d, dates before 1970 included) is refused by decode_manifest '
           '(%d guarded throw state(s) examined)%s' % (K, len(hits), '' if refused is None else ' — ' + refused[1]))
+
+    # ---- decoded sequences keep wire order: nothing reorders, de-duplicates or trims a decoded list afterwards ------------------------
+    REORDER = ('std::sort', 'std::stable_sort', 'std::partial_sort', 'std::reverse', 'std::rotate', 'std::unique', 'std::remove', 'std::remove_if',
+               'std::partition', 'std::stable_partition', 'std::shuffle', 'std::swap', 'std::iter_swap', 'std::erase', 'std::erase_if', 'std::nth_element')
+    shuf = []
+    for i in dec.walk():
+        nd_ = dec.nodes[i]
+        c_ = nd_.get('callee') or ''
+        hit = c_ in REORDER or (nd_['k'] == 'CXXMemberCallExpr' and c_.split('::')[-1] in ('erase', 'pop_back', 'resize', 'clear', 'insert') and 'vector' in c_)
+        if not hit:
+            continue
+        if nd_['k'] == 'CXXMemberCallExpr' and c_.split('::')[-1] == 'clear':
+            # emptying a list before it is filled is not a change of decoded content: only a clear() that a push_back can reach counts
+            from sa.paths import reaches as _reaches17
+            mem = {dec.nodes[j].get('m') for j in dec.walk(i) if dec.nodes[j]['k'] == 'MemberExpr'}
+            pushes = [p_ for p_ in dec.walk() if (dec.nodes[p_].get('callee') or '').endswith(('::push_back', '::emplace_back')) and
+                      mem & {dec.nodes[j].get('m') for j in dec.walk(p_) if dec.nodes[j]['k'] == 'MemberExpr'}]
+            if not any(_reaches17(dec, p_, i) for p_ in pushes):
+                continue
+        if any(dec.nodes[j]['k'] == 'MemberExpr' and (dec.nodes[j].get('m') or '').startswith('ephemeralnet::protocol::Manifest') for j in dec.walk(i)) or \
+                any(dec.nodes[j]['k'] == 'DeclRefExpr' and dec.nodes[j].get('n') == 'manifest' for j in dec.walk(i)):
+            shuf.append(i)
+    ck.ob('C17.decode', 'C17.decode/sequences-keep-wire-order', not shuf, dec.loc(shuf[0]) if shuf else dec.loc(),
+          'decode_manifest only appends to the manifest\'s lists (shards, metadata, hints): it never sorts, reverses, de-duplicates, erases from or resizes them'
+          + ('' if not shuf else ' — %s' % (dec.nodes[shuf[0]].get('callee') or '').split('<')[0]))
